@@ -683,8 +683,10 @@ func recipeOneof(c *ctx) {
 			for _, pri := range choices {
 				for variant := 0; variant < 2; variant++ {
 					k++
-					if c.n > 0 && k > c.n*len(choices) {
-						break
+					// every (active branch, prior holder, variant) combination is run unless the group is
+					// very large; then a deterministic sample
+					if total := len(choices) * len(choices) * 2; total > 40*c.n && c.n > 0 && (k*7919)%total >= 40*c.n {
+						continue
 					}
 					an, pn := "none", "none"
 					if act != nil {
@@ -723,8 +725,12 @@ func recipeOneof(c *ctx) {
 						c.Oracle("C07", id2, false, "panic", "CopyFrom panicked")
 						continue
 					}
-					want := c.p.b.NF(v.Field(g), holderField.Type)
-					got := c.p.b.NF(fr.Val.Field(g), holderField.Type)
+					// compared on the fields the schema describes (an excluded field of a branch message is not copied)
+					want := Described(c.info, c.p.b.NF(v, c.rt)).Field(g)
+					got := Described(c.info, c.p.b.NF(fr.Val, c.rt)).Field(g)
+					if want == nil || got == nil {
+						want, got = c.p.b.NF(v.Field(g), holderField.Type), c.p.b.NF(fr.Val.Field(g), holderField.Type)
+					}
 					if !EqualGV(want, got) {
 						fails = append(fails, fmt.Sprintf("holder %s: read back %s, expected %s (prior %s)", g, GVSx(got), GVSx(want), GVSx(prior.Field(g))))
 					}
